@@ -364,6 +364,7 @@ pub fn def() -> PropDef {
                 cases_quick: 30_000,
                 cases_thorough: 500_000,
                 max_shrink_iters: 4000,
+                limit_factor: 1,
                 strategy: case_strategy,
                 check: run_case,
             }),
